@@ -1,0 +1,66 @@
+//! Verification hook (compiled only with `--cfg humphrey_verif`): thin public wrappers
+//! around the crate-private `Frame` so that an external harness can drive the encoder and
+//! the decoder.  Adds no behaviour.
+
+use crate::frame::{Frame, Opcode};
+use std::convert::TryFrom;
+use std::io::Read;
+
+/// Plain-data view of a frame.
+#[derive(Debug, Clone, PartialEq, Eq)]
+pub struct RawFrame {
+    /// FIN bit
+    pub fin: bool,
+    /// RSV1-3
+    pub rsv: [bool; 3],
+    /// opcode nibble
+    pub opcode: u8,
+    /// MASK bit
+    pub mask: bool,
+    /// length field
+    pub length: u64,
+    /// masking key
+    pub masking_key: [u8; 4],
+    /// payload as stored in the frame
+    pub payload: Vec<u8>,
+}
+
+fn view(f: Frame) -> RawFrame {
+    RawFrame {
+        fin: f.fin,
+        rsv: f.rsv,
+        opcode: f.opcode as u8,
+        mask: f.mask,
+        length: f.length,
+        masking_key: f.masking_key,
+        payload: f.payload,
+    }
+}
+
+/// `Frame::from_stream` over any reader.
+pub fn decode<T: Read>(stream: T) -> Result<RawFrame, String> {
+    Frame::from_stream(stream).map(view).map_err(|e| format!("{:?}", e))
+}
+
+/// `Vec<u8>::from(Frame)`; `None` if the opcode is reserved (no such `Frame` exists).
+pub fn encode(f: &RawFrame) -> Option<Vec<u8>> {
+    let opcode = Opcode::try_from(f.opcode).ok()?;
+    Some(
+        Frame {
+            fin: f.fin,
+            rsv: f.rsv,
+            opcode,
+            mask: f.mask,
+            length: f.length,
+            masking_key: f.masking_key,
+            payload: f.payload.clone(),
+        }
+        .into(),
+    )
+}
+
+/// `Frame::new(opcode, payload)` serialised.
+pub fn encode_new(opcode: u8, payload: Vec<u8>) -> Option<Vec<u8>> {
+    let opcode = Opcode::try_from(opcode).ok()?;
+    Some(Frame::new(opcode, payload).into())
+}
